@@ -1,6 +1,340 @@
-//! C19 — not implemented yet.
-use mc_core::Ctx;
+//! C19 — a crash during a Merkle-store commit leaves a consistent store.
+//!
+//! Fault enumeration on the real `RocksDBWithMerkleTreeSubstateStore`: every history of <= L committed
+//! batches from a 10-batch alphabet, pruning on and off, followed by one victim batch. The victim is
+//! first committed un-faulted while the source hook counts its physical writes W; then, for every
+//! k in 1..=W, the history is rebuilt in a fresh directory and the commit is stopped right before its
+//! k-th physical write (hook panics -> unwind -> store dropped -> directory reopened with `standard()`):
+//! every prefix of the commit's write sequence.
+//! Oracle on the reopened store: (version, substates) is the pre-commit or the post-commit pair, the
+//! recorded root is the independent commitment (refmerkle) of the substates held, and the tree read at
+//! the recorded version lists exactly the hashes of those substates. Unreachable leftover tree nodes are
+//! allowed (the statement speaks of version, root and substates only).
+use crate::alphabet::*;
+use crate::c17::{listing_of, show_listing};
+use crate::refmerkle;
+use crate::treekeys;
+use mc_core::{par_map, Ctx, Level, Local};
+use radix_common::prelude::Hash;
+use radix_substate_store_impls::rocks_db_with_merkle_tree::{Options, RocksDBWithMerkleTreeSubstateStore};
+use radix_substate_store_impls::verif_hooks;
+use radix_substate_store_interface::interface::*;
+use serde_json::{json, Map, Value};
+use std::collections::BTreeMap;
+use std::path::PathBuf;
+use std::sync::atomic::{AtomicU64, Ordering};
 
-pub fn run(_ctx: Ctx) -> ! {
-    mc_core::machinery_error("C19: not implemented")
+fn batches() -> Vec<Commit> {
+    let e = treekeys::entities();
+    let p = treekeys::partitions();
+    let k = treekeys::sort_keys();
+    let v1 = treekeys::V1.to_vec();
+    let v2 = treekeys::V2.to_vec();
+    let set = |kk: &Sort, v: &Val| (kk.clone(), Some(v.clone()));
+    let del = |kk: &Sort| (kk.clone(), None);
+    vec![
+        // 0: one substate put
+        Commit(vec![Atom::new(&e[0], p[0], PU::Delta(vec![set(&k[0], &v1)]))]),
+        // 1: two puts in one partition (overwrite + new key sharing 15 bits)
+        Commit(vec![Atom::new(&e[0], p[0], PU::Delta(vec![set(&k[0], &v2), set(&k[1], &v1)]))]),
+        // 2: one delete (present or absent)
+        Commit(vec![Atom::new(&e[0], p[0], PU::Delta(vec![del(&k[0])]))]),
+        // 3: two deletes (may empty the partition / entity / state)
+        Commit(vec![Atom::new(&e[0], p[0], PU::Delta(vec![del(&k[0]), del(&k[1])]))]),
+        // 4: reset without new values
+        Commit(vec![Atom::new(&e[0], p[0], PU::Reset(vec![]))]),
+        // 5: reset with new values
+        Commit(vec![Atom::new(&e[0], p[0], PU::Reset(vec![(k[2].clone(), v1.clone()), (k[3].clone(), v2.clone())]))]),
+        // 6: two partitions of one entity
+        Commit(vec![Atom::new(&e[0], p[0], PU::Delta(vec![set(&k[3], &v1)])), Atom::new(&e[0], p[1], PU::Delta(vec![set(&k[0], &v1)]))]),
+        // 7: two entities, delta + reset
+        Commit(vec![Atom::new(&e[1], p[0], PU::Delta(vec![set(&k[0], &v1)])), Atom::new(&e[2], p[2], PU::Reset(vec![(k[1].clone(), v2.clone())]))]),
+        // 8: an entity whose key shares 30 bits with entity 0 (restructures the entity tier)
+        Commit(vec![Atom::new(&e[1], p[0], PU::Delta(vec![set(&k[1], &v2)]))]),
+        // 9: wipe entity 0 by resets
+        Commit(vec![Atom::new(&e[0], p[0], PU::Reset(vec![])), Atom::new(&e[0], p[1], PU::Reset(vec![]))]),
+    ]
+}
+
+#[derive(Clone)]
+struct Case {
+    pruning: bool,
+    prefix: Vec<Commit>,
+    victim: Commit,
+}
+
+impl Case {
+    fn to_json(&self, stop_before: Option<(u64, &str)>) -> Value {
+        let mut v = json!({"pruning": self.pruning, "prefix": self.prefix.iter().map(|c| c.to_json()).collect::<Vec<_>>(), "victim": self.victim.to_json()});
+        if let Some((k, label)) = stop_before {
+            v["stop_before_write"] = json!(k);
+            v["write_label"] = json!(label);
+        }
+        v
+    }
+}
+
+struct DirGuard(PathBuf);
+impl Drop for DirGuard {
+    fn drop(&mut self) {
+        let _ = std::fs::remove_dir_all(&self.0);
+    }
+}
+
+static DIR_COUNTER: AtomicU64 = AtomicU64::new(0);
+
+fn open(dir: &PathBuf, pruning: bool) -> RocksDBWithMerkleTreeSubstateStore {
+    let mut options = Options::default();
+    options.create_if_missing(true);
+    options.create_missing_column_families(true);
+    RocksDBWithMerkleTreeSubstateStore::with_options(&options, dir.clone(), pruning)
+}
+
+/// Fresh store holding the committed prefix.
+fn build(ctx: &Ctx, case: &Case) -> (RocksDBWithMerkleTreeSubstateStore, DirGuard) {
+    let n = DIR_COUNTER.fetch_add(1, Ordering::Relaxed);
+    let dir = ctx.scratch_dir(&format!("d{n}"));
+    let mut store = open(&dir, case.pruning);
+    for c in &case.prefix {
+        store.commit(&c.to_database_updates());
+    }
+    verif_hooks::disarm();
+    let _ = verif_hooks::take_seen();
+    (store, DirGuard(dir))
+}
+
+struct Recovered {
+    version: u64,
+    root: Hash,
+    substates: RefDb,
+}
+
+fn read_back(store: &RocksDBWithMerkleTreeSubstateStore) -> Recovered {
+    Recovered { version: store.get_current_version(), root: store.get_current_root_hash(), substates: real_contents(store) }
+}
+
+/// The statement's oracle. Ok(class) or Err((key, what)).
+fn judge(store: &RocksDBWithMerkleTreeSubstateStore, pre: &(u64, RefDb), post: &(u64, RefDb)) -> Result<&'static str, (String, String)> {
+    let r = read_back(store);
+    let which = if r.version == post.0 && r.substates == post.1 {
+        "post-commit-state"
+    } else if r.version == pre.0 && r.substates == pre.1 {
+        "pre-commit-state"
+    } else {
+        let describe = |s: &RefDb| s.to_json().to_string();
+        let sub = if r.substates == pre.1 {
+            "the pre-commit substates"
+        } else if r.substates == post.1 {
+            "the post-commit substates"
+        } else {
+            "substates that are neither the pre- nor the post-commit set"
+        };
+        return Err((
+            "torn-commit".into(),
+            format!(
+                "reopened store records version {} and holds {}: {} (pre-commit: version {} {}; post-commit: version {} {})",
+                r.version,
+                sub,
+                describe(&r.substates),
+                pre.0,
+                describe(&pre.1),
+                post.0,
+                describe(&post.1)
+            ),
+        ));
+    };
+    let want_root = refmerkle::state_root(&r.substates);
+    if r.root != want_root {
+        return Err(("root-does-not-describe-substates".into(), format!("recorded root {} but the commitment of the substates held is {}", mc_core::hex(&r.root.0), mc_core::hex(&want_root.0))));
+    }
+    let want = refmerkle::substate_hashes(&r.substates);
+    match mc_core::catch(|| listing_of(store, r.version)) {
+        Ok(l) if l == want => Ok(which),
+        Ok(l) => Err(("tree-does-not-describe-substates".into(), format!("tree at recorded version {} lists {} but the store holds {}", r.version, show_listing(&l), show_listing(&want)))),
+        Err(p) => Err(("tree-unreadable".into(), format!("reading the tree at recorded version {} panicked: {p}", r.version))),
+    }
+}
+
+struct CaseResult {
+    local: Local,
+    writes: usize,
+    nontrivial: u64,
+}
+
+fn run_case(ctx: &Ctx, case: &Case) -> CaseResult {
+    let mut local = Local::new();
+    let mut pre_model = RefDb::default();
+    for c in &case.prefix {
+        pre_model.apply(c);
+    }
+    let mut post_model = pre_model.clone();
+    post_model.apply(&case.victim);
+    let pre = (case.prefix.len() as u64, pre_model);
+    let post = (case.prefix.len() as u64 + 1, post_model);
+    let du = case.victim.to_database_updates();
+
+    // un-faulted run: count the physical writes and check the post state
+    let labels: Vec<&'static str> = {
+        let (mut store, guard) = build(ctx, case);
+        store.commit(&du);
+        let labels = verif_hooks::take_seen();
+        drop(store);
+        let store = RocksDBWithMerkleTreeSubstateStore::standard(guard.0.clone());
+        local.eval();
+        match judge(&store, &pre, &post) {
+            Ok("post-commit-state") => local.class("unfaulted:post-commit-state"),
+            Ok(_) => local.violation("unfaulted-commit-not-applied", "a completed commit left the pre-commit state", case.to_json(None)),
+            Err((k, w)) => local.violation(format!("unfaulted:{k}"), w, case.to_json(None)),
+        }
+        labels
+    };
+    let w = labels.len();
+    if w == 0 {
+        mc_core::machinery_error("C19: the crash-point hook saw no physical write in a commit (hook not compiled in?)");
+    }
+    let mut nontrivial = 0;
+    for k in 1..=w {
+        let (mut store, guard) = build(ctx, case);
+        verif_hooks::arm(k as u64);
+        let r = mc_core::catch(|| store.commit(&du));
+        verif_hooks::disarm();
+        let seen = verif_hooks::take_seen();
+        match r {
+            Err(p) if p.starts_with(verif_hooks::CRASH_MARKER) => {}
+            Err(p) => mc_core::machinery_error(&format!("C19: commit panicked for another reason than the crash point: {p}")),
+            Ok(()) => mc_core::machinery_error("C19: armed crash point was not reached (write sequence not deterministic)"),
+        }
+        if seen.len() != k || seen[..] != labels[..k] {
+            mc_core::machinery_error("C19: write sequence differs between the counting run and the faulted run");
+        }
+        drop(store); // the process is gone; RocksDB keeps what was written so far
+        let store = RocksDBWithMerkleTreeSubstateStore::standard(guard.0.clone());
+        local.eval();
+        if pre.1 != post.1 {
+            nontrivial += 1;
+        }
+        let label = labels[k - 1];
+        match judge(&store, &pre, &post) {
+            Ok(c) => {
+                local.class(&format!("{c}@stop-before:{label}"));
+                if k == 2 || k == w {
+                    local.sample(|| json!({"case": case.to_json(Some((k as u64, label))), "recovered": c, "writes_in_commit": w}));
+                }
+            }
+            Err((key, what)) => {
+                local.class(&format!("VIOLATION:{key}@stop-before:{label}"));
+                local.violation(format!("{key}:stop-before={label}"), format!("stopped before write {k} of {w} ({label}): {what}"), case.to_json(Some((k as u64, label))));
+            }
+        }
+        drop(store);
+        drop(guard);
+    }
+    CaseResult { local, writes: w, nontrivial }
+}
+
+fn cases(prefix_len: usize) -> Vec<Case> {
+    let b = batches();
+    let mut prefixes: Vec<Vec<Commit>> = vec![vec![]];
+    let mut layer: Vec<Vec<Commit>> = vec![vec![]];
+    for _ in 0..prefix_len {
+        let mut next = vec![];
+        for p in &layer {
+            for c in &b {
+                let mut q = p.clone();
+                q.push(c.clone());
+                next.push(q);
+            }
+        }
+        prefixes.extend(next.iter().cloned());
+        layer = next;
+    }
+    // shortest histories first, simplest victim first, pruning (the default configuration) first
+    let mut out = vec![];
+    for p in &prefixes {
+        for v in &b {
+            for pruning in [true, false] {
+                out.push(Case { pruning, prefix: p.clone(), victim: v.clone() });
+            }
+        }
+    }
+    out
+}
+
+pub fn run(ctx: Ctx) -> ! {
+    mc_core::install_quiet_panic_hook();
+    if let Some(case) = ctx.read_replay_case() {
+        replay(ctx, case);
+    }
+    let prefix_len = ctx.pick(2, 3);
+    let all = cases(prefix_len);
+    let wall_cap = ctx.pick(50.0, 1100.0);
+    let stopped = std::sync::atomic::AtomicBool::new(false);
+    let results: Vec<Option<CaseResult>> = par_map(ctx.threads, &all, |case| {
+        if ctx.elapsed_s() > wall_cap {
+            stopped.store(true, Ordering::Relaxed);
+            return None;
+        }
+        Some(run_case(&ctx, case))
+    });
+    let mut hist: BTreeMap<usize, u64> = BTreeMap::new();
+    let mut nontrivial = 0;
+    let mut done = 0u64;
+    let mut first_skipped = None;
+    for (i, r) in results.into_iter().enumerate() {
+        match r {
+            Some(r) => {
+                *hist.entry(r.writes).or_insert(0) += 1;
+                nontrivial += r.nontrivial;
+                done += 1;
+                ctx.merge(r.local);
+            }
+            None => {
+                if first_skipped.is_none() {
+                    first_skipped = Some(i);
+                }
+            }
+        }
+    }
+    let exhaustive = !stopped.load(Ordering::Relaxed);
+    let mut cov = Map::new();
+    cov.insert("batch_alphabet".into(), json!(batches().len()));
+    cov.insert("max_committed_batches_before_victim".into(), json!(prefix_len));
+    cov.insert("histories".into(), json!(all.len()));
+    cov.insert("histories_completed".into(), json!(done));
+    if let Some(i) = first_skipped {
+        cov.insert("first_history_skipped_by_wall_cap".into(), json!(i));
+    }
+    cov.insert("fault_points_per_history".into(), json!(hist.iter().map(|(k, v)| (k.to_string(), *v)).collect::<BTreeMap<_, _>>()));
+    ctx.finish(
+        Level::FaultEnumeration,
+        "a case is (pruning flag, <= L committed batches, victim batch, k): the victim commit is stopped right before its k-th physical write, for every k up to the number of writes counted in an un-faulted run; an evaluation is one reopened store judged against the pre-/post-commit state, the independent root and the tree listing; non-trivial = cases whose victim changes at least one substate (pre-commit and post-commit states differ)",
+        nontrivial,
+        exhaustive,
+        cov,
+        &[
+            "RocksDB writes of one process are totally ordered through its WAL; a process stop or power loss yields a prefix of that order. Every prefix of the commit's own write sequence is enumerated; torn writes inside one RocksDB write are RocksDB's responsibility",
+            "the stop is modelled by a panic at the crash point, unwinding out of commit, dropping the store handle and reopening the directory",
+            "blake2b-256 is shared between the reference commitment and the tree; keys have equal length per tier",
+        ],
+    )
+}
+
+fn replay(ctx: Ctx, case: Value) -> ! {
+    let parse_list = |v: Option<&Value>| -> Vec<Commit> { v.and_then(|x| x.as_array()).map(|a| a.iter().filter_map(Commit::from_json).collect()).unwrap_or_default() };
+    let inner = case.get("case").cloned().unwrap_or(case.clone());
+    let c = Case {
+        pruning: inner.get("pruning").and_then(|b| b.as_bool()).unwrap_or(true),
+        prefix: parse_list(inner.get("prefix")),
+        victim: inner.get("victim").and_then(Commit::from_json).unwrap_or_else(|| mc_core::machinery_error("replay case has no victim")),
+    };
+    let r = run_case(&ctx, &c);
+    println!("writes in the victim commit: {}", r.writes);
+    for (k, n) in &r.local.classes {
+        println!("  {k}: {n}");
+    }
+    for v in &r.local.violations {
+        println!("  VIOLATION {}: {}", v.key, v.what);
+    }
+    ctx.merge(r.local);
+    ctx.finish(Level::FaultEnumeration, "replay", 0, false, Map::new(), &[])
 }
